@@ -1260,3 +1260,68 @@ package otr3
 //@   decreases len(currentData)
 
 //@ ghostfield fragNumsOK Bool
+
+// ---------------------------------------------------------------------------
+// libotr key-file import (keys.go) over the s-expression reader: no panic and
+// termination for every input (C13).  The bufio.Reader is modelled by the ghost
+// fields rdlen/rdpos/rdlast (see sexp/verif_contracts.go); every loop consumes
+// at least one byte per iteration.
+// ---------------------------------------------------------------------------
+
+//@ func readPotentialBigNum
+//@   requires rdOK(r)
+//@   modifies rdpos(r), rdlast(r)
+//@   ensures [C13.keys.bignum.pos] rdAdvanced(r)
+//@ func readPotentialSymbol
+//@   requires rdOK(r)
+//@   modifies rdpos(r), rdlast(r)
+//@   ensures [C13.keys.symbol.pos] rdAdvanced(r)
+//@ func readPotentialStringOrSymbol
+//@   requires rdOK(r)
+//@   modifies rdpos(r), rdlast(r)
+//@   ensures [C13.keys.strsym.pos] rdAdvanced(r)
+//@ func readSymbolAndExpect
+//@   requires rdOK(r)
+//@   modifies rdpos(r), rdlast(r)
+//@   ensures [C13.keys.expect.pos] rdAdvanced(r)
+//@ func assignParameter
+//@   requires k != nil
+//@   modifies k.P, k.Q, k.G, k.Y, k.X
+//@ func readParameter
+//@   requires rdOK(r)
+//@   modifies rdpos(r), rdlast(r)
+//@   ensures [C13.keys.param.pos] rdAdvanced(r)
+//@   ensures [C13.keys.param.progress] !end ==> rdpos(r) > old(rdpos(r))
+//@ func readDSAPrivateKey
+//@   requires rdOK(r)
+//@   modifies rdpos(r), rdlast(r)
+//@   ensures [C13.keys.dsa.pos] rdAdvanced(r)
+//@   ensures [C13.keys.dsa.nonnil] result1 ==> result0 != nil
+//@ loop readDSAPrivateKey #0
+//@   invariant rdOK(r) && rdpos(r) >= old(rdpos(r)) && k != nil && fresh(k)
+//@   decreases rdlen(r) - rdpos(r)
+//@ func readPrivateKey
+//@   requires rdOK(r)
+//@   modifies rdpos(r), rdlast(r)
+//@   ensures [C13.keys.priv.pos] rdAdvanced(r)
+//@ func readAccountName
+//@   requires rdOK(r)
+//@   modifies rdpos(r), rdlast(r)
+//@   ensures [C13.keys.name.pos] rdAdvanced(r)
+//@ func readAccountProtocol
+//@   requires rdOK(r)
+//@   modifies rdpos(r), rdlast(r)
+//@   ensures [C13.keys.protocol.pos] rdAdvanced(r)
+//@ func readAccount
+//@   requires rdOK(r)
+//@   modifies rdpos(r), rdlast(r)
+//@   ensures [C13.keys.account.pos] rdAdvanced(r)
+//@   ensures [C13.keys.account.progress] !atEnd ==> rdpos(r) > old(rdpos(r))
+//@ func readAccounts
+//@   requires rdOK(r)
+//@   modifies rdpos(r), rdlast(r)
+//@   ensures [C13.keys.accounts.pos] rdAdvanced(r)
+//@ loop readAccounts #0
+//@   invariant rdOK(r) && rdpos(r) >= old(rdpos(r)) && (as == nil || fresh(as))
+//@   decreases rdlen(r) - rdpos(r)
+//@ func ImportKeys
